@@ -7,11 +7,11 @@ use crate::engine::*;
 use crate::val::{Seg, V};
 use serde_json::{json, Value as J};
 
-const STRINGS: [&str; 58] = [
+const STRINGS: [&str; 60] = [
     "", "a", "ab c", "10", "007", "1.5", "1e5", "true", "True", "NULL", "null", "~", "yes", "No", "on", "inf", "nan", "Infinity", ".inf", "0x1f", "1_000",
     "a\u{e4}", "\u{65e5}\u{672c}", "it's", "say \"hi\"", "a: b", "a #b", " lead", "trail ", "-dash", "[x]", "{y}", "a,b", "line\nbreak", "tab\there",
     "back\\slash", "x'y\"z", "*alias", "&anchor", "!tag", "%pct", "@at", "|", ">", "?", "- item", "key:", "#comment", "AWS::S3::Bucket", "arn:aws:s3:::b/k",
-    "NaN", "prod", "exports.handler = 1;\n", "two\nlines\n", "10\n", "a\n\nb", "first\n  indented\nlast", "true\n",
+    "NaN", "prod", "exports.handler = 1;\n", "two\nlines\n", "10\n", "a\n\nb", "first\n  indented\nlast", "true\n", "smile \u{1F600}", "\u{10348}",
 ];
 const KEYSU: [&str; 14] = ["a", "b", "Name", "k1", "with space", "Type", "aws:cdk:path", "x-y_z", "10", "true", "null", "\u{fc}ber", "it's", "Fn::Join"];
 
@@ -189,7 +189,14 @@ fn check_doc(doc: &V, texts: &[(Style, String)], evals: &mut u64) -> Result<usiz
         for via in vias {
             let what = format!("{} via {}", style.text(), via);
             let got = load_dump(text, via, evals).map_err(|e| {
-                let sig = if e.starts_with("panic") { format!("panic:{}", e.split(' ').nth(1).unwrap_or("")) } else { sig_for(doc, "load-failed") };
+                let sig = if e.starts_with("panic") {
+                    format!("panic:{}", e.split(' ').nth(1).unwrap_or(""))
+                } else if style.ext() == "json" && via != "library" && text.contains("\\ud8") && e.contains("Error encountered while parsing data file") {
+                    // JSON text with a surrogate-pair escape, rejected by the validate loader
+                    "c11:load-failed:json-surrogate-pair-escape".to_string()
+                } else {
+                    sig_for(doc, "load-failed")
+                };
                 (format!("{}: {}", what, e), sig)
             })?;
             if got != *doc {
